@@ -21,9 +21,14 @@ def generate(rng, tier):
         ln = s.add("mask max %s" % hx(v), tag="mask:%d" % v.bit_length())
         s.meta[ln] = {"max": v}
     s.add("mask 2440"); s.add("mask nostrip")
-    for _ in range(200):
-        k = rng.choice(suites.MASKS)
+    for i in range(200):
+        # (every mask of the list at least once - the all-zero mask of `from_max_known_address(0)` included - then random)
+        k = suites.MASKS[i] if i < len(suites.MASKS) else rng.choice(suites.MASKS + [0])
         ln = s.add("aregs %s" % s.regs_a64(k, rng.u64(), rng.u64(), rng.u64()), tag="aregs")
+        s.meta[ln] = {"mask": k}
+    for i in range(8):
+        k = 0
+        ln = s.add("aregs %s" % s.regs_a64(k, rng.u64(), rng.u64(), rng.u64()), tag="aregs:zero")
         s.meta[ln] = {"mask": k}
     out.append(("masks", s))
     n = 6000 if tier == "quick" else 120000
@@ -105,7 +110,10 @@ def judge(script, impl):
                 bad.append((ln, "mask 0x%x does not preserve addresses up to 0x%x" % (k, a)))
         elif op == "aregs":
             rg = [int(x, 16) for x in line.split()[1:]]
-            if rg[1] & ~rg[0] & M64:
+            k = script.meta.get(ln, {}).get("mask", rg[0])         # the mask that was ASKED for, not the one reported back
+            if rg[0] != k:
+                bad.append((ln, "new_with_ptr_auth_mask(0x%x, ..) built a register set with mask 0x%x: %s" % (k, rg[0], line)))
+            elif rg[1] & ~k & M64:
                 bad.append((ln, "new_with_ptr_auth_mask left bits outside the mask in lr: " + line))
         elif op in ("exec", "unwind"):
             o = vlib.outcome(line)
